@@ -25,7 +25,7 @@ func (C11) Info() core.Info {
 	return core.Info{
 		Rule: "worlds in which 1-2 run-once converters (positional, struct, pointer-struct and built output forms, with and without inputs) sit at a PRNG-chosen position of a conversion chain and feed 1-3 consumers within one call (diamonds). Sequential histories of 2-8 Call / Convert / Redefine / call-of-redefined operations on one or two targets with fresh option values per operation, fault once_first_fails (the first execution returns an error). Concurrent histories: 2-4 simulated caller threads (S2 baton scheduler, seeded preemption at every woven yield point incl. targeted preemption at single sites) whose operations need the same run-once converter. Oracle: the body executes at most once over the world's lifetime; every value a consumer receives from it stems from execution 1; after a failed first execution every operation that reports an injected error reports that same error value. Non-trivial: the run-once party was needed by >=2 operations; distinct = distinct (world shape, event-log hash)",
 		Assumptions: []string{"a use 'after the first' is judged through provenance: tokens minted by the run-once party carry its execution number"},
-		Probes:      []string{"c11_once_needed_ge2_ops", "c11_diamond_within_call", "c11_first_exec_failed", "c11_cached_error_seen", "c11_ptr_struct_once", "c11_concurrent_worlds", "c11_threads_overlapped", "s1_nonidentity_perms"},
+		Probes:      []string{"c11_once_needed_ge2_ops", "c11_diamond_within_call", "c11_first_exec_failed", "c11_cached_error_seen", "c11_ptr_struct_once", "c11_redefine_planned", "c11_concurrent_worlds", "c11_threads_overlapped", "s1_nonidentity_perms"},
 		Real:        realComponents,
 		Simulated:   append(append([]string{}, simComponents...), "S2: simulated caller threads run one at a time under a baton; the PRNG picks who runs at every woven yield point"),
 	}
@@ -115,6 +115,12 @@ func genOnceWorld(r *simrt.RNG) world.World {
 		case x < 8:
 			w.Ops = append(w.Ops, world.Op{Kind: world.OpConvert, Type: []int{Y1, Z, X}[r.Intn(3)], Args: args})
 		default:
+			if r.Chance(2, 3) {
+				// only the run-once party's own input type may be asked of the caller:
+				// planning has to walk through the run-once party
+				w.Args = append(w.Args, world.ArgSpec{Kind: world.ArgFilterIn, Filter: []int{S}, FilterStyle: r.Intn(3)})
+				args = append(args, len(w.Args)-1)
+			}
 			w.Ops = append(w.Ops, world.Op{Kind: world.OpRedefine, Target: 0, Args: args})
 			if r.Bool() {
 				w.Ops = append(w.Ops, world.Op{Kind: world.OpCallRedef, Redef: len(w.Ops) - 1})
@@ -163,7 +169,7 @@ func c11Valid(w world.World) bool {
 	}
 	for _, a := range w.Args {
 		switch a.Kind {
-		case world.ArgNamed, world.ArgTyped, world.ArgConv, world.ArgConvFunc:
+		case world.ArgNamed, world.ArgTyped, world.ArgConv, world.ArgConvFunc, world.ArgFilterIn:
 		default:
 			return false
 		}
@@ -275,6 +281,18 @@ func (C11) Run(c core.Case, ctx *core.Ctx) []core.Violation {
 		for _, res := range rt.Results {
 			if res != nil && !res.Returned {
 				ctx.St.Inc("cross_c06_panic_or_divergence")
+			}
+		}
+		// a use after the first must observe the outputs of the first execution:
+		// never a value nobody produced
+		for _, on := range rt.Online {
+			if on.Class == "invented-value" {
+				out = append(out, core.Violation{Class: "once-use-observed-invented-value", Site: "Call", Detail: on.Detail})
+			}
+		}
+		for oi, res := range rt.Results {
+			if res != nil && w.Ops[oi].Kind == world.OpRedefine && res.Returned && res.Err == nil {
+				ctx.St.Inc("c11_redefine_planned")
 			}
 		}
 		if needed {
